@@ -809,6 +809,42 @@ class Engine:
         return [Leaf(s, self.freeze(s, r)) for s, r in leaves]
 
 
+def compose(eng, keys, args=None):
+    """Leaves of keys[-1](...keys[1](keys[0](params))...) with one state threaded through."""
+    body = eng.P.body(keys[0])
+    st = State()
+    if args is None:
+        args = [("param", i, body["locals"][i + 1].get("n", f"arg{i}")) for i in range(body["argc"])]
+    cur = eng.run_body(st, keys[0], body, list(args), 0)
+    for k in keys[1:]:
+        nxt = []
+        b = eng.P.body(k)
+        for s, r in cur:
+            nxt.extend(eng.run_body(s, k, b, [r], 0))
+        cur = nxt
+    return [Leaf(s, eng.freeze(s, r)) for s, r in cur]
+
+
+def is_recon(P, ret, x, known):
+    """Does `ret` rebuild the opaque value `x` constructor by constructor (under the variant knowledge `known`)?"""
+    if ret == x:
+        return True
+    if ret[0] == "adt":
+        adt = P.adts.get(ret[1])
+        is_struct = adt is not None and adt["kind"] == "struct"
+        if is_struct:
+            names = [f["name"] for f in adt["variants"][0]["fields"]]
+            if len(names) != len(ret[3]):
+                return False
+            return all(is_recon(P, ret[3][i], ("field", x, names[i]), known) for i in range(len(names)))
+        if known.get(x) != ret[2]:
+            return False
+        return all(is_recon(P, f, ("vfield", x, ret[2], i), known) for i, f in enumerate(ret[3]))
+    if ret[0] == "tuple":
+        return all(is_recon(P, f, ("field", x, i), known) for i, f in enumerate(ret[1]))
+    return False
+
+
 def strip_turbofish(s):
     # `<X as T>::f::<A, B>` -> `<X as T>::f`
     if s.endswith(">") and "::<" in s:
@@ -1071,6 +1107,25 @@ def m_discriminant_value(eng, st, args, info):
     return [(st, ("discr", v))]
 
 
+INTO_RE = re.compile(r"^<(.+) as core::convert::Into<(.+)>>::into$")
+
+
+def m_into(eng, st, args, info):
+    m = INTO_RE.match(info["fn_args"] if isinstance(info["fn_args"], str) else "")
+    if not m:
+        return None
+    a, b = m.group(1), m.group(2)
+    if a == b:
+        return [(st, args[0])]
+    cands = [f"<{b} as core::convert::From<{a}>>::from"]
+    suffix = f"<impl core::convert::From<{a}> for {b}>::from"
+    cands += [k for k in eng.P.fns if k.endswith(suffix)]
+    for c in cands:
+        if c in eng.P.fns:
+            return eng.call_key(st, c, c, args, info["depth"], info["term"])
+    return None
+
+
 def m_unit(eng, st, args, info):
     return [(st, ("tuple", ()))]
 
@@ -1101,7 +1156,6 @@ DEFAULT_MODELS = {
     "core::sync::atomic::Atomic::fetch_nand": m_atomic("fetch_nand"),
     "core::sync::atomic::Atomic::fetch_update": m_atomic("fetch_update"),
     "core::cmp::Ordering::reverse": m_reverse,
-    "core::convert::Into::into": None,
     "core::intrinsics::discriminant_value": m_discriminant_value,
     "core::num::count_ones": m_intrinsic1("count_ones", lambda a: I(bin(a[1] & ((1 << MASKS[a[2]]) - 1)).count("1"), "u32")),
     "core::num::swap_bytes": m_intrinsic1("swap_bytes", lambda a: I(int.from_bytes((a[1] & ((1 << MASKS[a[2]]) - 1)).to_bytes(MASKS[a[2]] // 8, "little"), "big"), a[2])),
@@ -1113,6 +1167,8 @@ DEFAULT_MODELS = {
     "core::cmp::Ord::max": lambda eng, st, args, info: (m_max_min("max")(eng, st, args, info) or [(st, ("max",) + tuple(sorted(args, key=repr)))]),
     "core::cmp::Ord::min": lambda eng, st, args, info: (m_max_min("min")(eng, st, args, info) or [(st, ("min",) + tuple(sorted(args, key=repr)))]),
     "core::ops::try_trait::Try::branch": m_try_branch,
+    "core::convert::Into::into": m_into,
+    "<T as core::convert::Into<U>>::into": m_into,
 }
 DEFAULT_MODELS = {k: v for k, v in DEFAULT_MODELS.items() if v is not None}
 
